@@ -38,6 +38,24 @@ AbsBroadcastAxis(x, y) ==     \* both operands have this axis; the result extent
       [] x[1] \in {"const", "clip"} /\ y[1] \in {"const", "clip"} -> <<"clip", Max2(x[2], y[2])>>
       [] OTHER -> <<"dyn", 0>>
 
+\* concatenation along axis ax (1-based): the extents add up on ax - bounds add up too (a bound taken from one operand only
+\* would clip the result); on the other axes the operands agree, so the more precise knowledge of either operand is kept
+AbsConcatAxis(x, y) == CASE x[1] = "const" /\ y[1] = "const" -> <<"const", x[2] + y[2]>>
+                         [] x[1] \in {"const", "clip"} /\ y[1] \in {"const", "clip"} -> <<"clip", x[2] + y[2]>>
+                         [] OTHER -> <<"dyn", 0>>
+AbsAgreeAxis(x, y) == CASE x[1] = "const" -> x [] y[1] = "const" -> y
+                        [] x[1] = "clip" /\ y[1] = "clip" -> <<"clip", Min2(x[2], y[2])>>
+                        [] x[1] = "clip" -> x [] y[1] = "clip" -> y [] OTHER -> <<"dyn", 0>>
+AbsConcat(a, b, ax) == [i \in 1..Len(a) |-> IF i = ax THEN AbsConcatAxis(a[i], b[i]) ELSE AbsAgreeAxis(a[i], b[i])]
+\* tiling with known repetition counts (aligned at the last axis, axes are prepended when there are more counts than axes)
+AbsTileAxis(x, r) == CASE x[1] = "const" -> <<"const", x[2] * r>> [] x[1] = "clip" -> <<"clip", x[2] * r>> [] OTHER -> <<"dyn", 0>>
+AbsTile(a, reps) == LET n == Max2(Len(a), Len(reps))
+                        pa == [i \in 1..n |-> IF i <= n - Len(a) THEN <<"const", 1>> ELSE a[i - (n - Len(a))]]
+                        pr == [i \in 1..n |-> IF i <= n - Len(reps) THEN 1 ELSE reps[i - (n - Len(reps))]]
+                    IN [i \in 1..n |-> AbsTileAxis(pa[i], pr[i])]
+\* take with run-time indices along ax: the extent is the number of indices - nothing of the source's knowledge about ax survives
+AbsTake(a, ax) == [a EXCEPT ![ax] = <<"dyn", 0>>]
+
 \* ---------------- joining the axes of a shape into ONE index type (what reading an extent at a run-time position returns:
 \* meta::common_type of the axis types).  A range is <<lo, hi>>, <<>> stands for a plain (unbounded) integer.
 \* clipped_integer_t<T,0,n> has range 0..n; a value outside the range of the joined type is clipped on conversion.
@@ -67,4 +85,18 @@ SoundBroadcast == Len(abs) = Len(abs2) => \A s \in Gamma(abs), t \in Gamma(abs2)
 \* every extent of every instance survives the conversion to the joined type, and the join is the smallest such range
 SoundJoin == /\ \A i \in 1..Len(abs) : RangeContains(AbsJoin(abs), RangeOfAxis(abs[i]))
              /\ \A s \in Gamma(abs) : \A i \in 1..Len(abs) : ClipInto(AbsJoin(abs), s[i]) = s[i]
+SoundConcat == Len(abs) = Len(abs2) => \A ax \in 1..Len(abs) : \A s \in Gamma(abs), t \in Gamma(abs2) :
+    (\A i \in 1..Len(s) : i = ax \/ s[i] = t[i]) =>
+        LET r == [i \in 1..Len(s) |-> IF i = ax THEN s[i] + t[i] ELSE s[i]] IN
+        /\ Sound(TraitsOf(AbsConcat(abs, abs2, ax)), r)
+        /\ \A i \in 1..Len(r) : AbsConcat(abs, abs2, ax)[i][1] = "dyn" \/ r[i] <= AbsConcat(abs, abs2, ax)[i][2]
+SoundTile == \A reps \in UNION {[1..k -> 1..2] : k \in 1..3} : \A s \in Gamma(abs) :
+    LET n == Max2(Len(s), Len(reps))
+        ps == [i \in 1..n |-> IF i <= n - Len(s) THEN 1 ELSE s[i - (n - Len(s))]]
+        pr == [i \in 1..n |-> IF i <= n - Len(reps) THEN 1 ELSE reps[i - (n - Len(reps))]]
+        r == [i \in 1..n |-> ps[i] * pr[i]]
+    IN Sound(TraitsOf(AbsTile(abs, reps)), r) /\ Len(AbsTile(abs, reps)) = n
+SoundTake == \A ax \in 1..Len(abs) : \A s \in Gamma(abs) : \A n \in 1..(MaxExt + 1) :
+    Sound(TraitsOf(AbsTake(abs, ax)), [s EXCEPT ![ax] = n])
+
 =================================================================================
